@@ -1,7 +1,8 @@
 (** C04 / C09 trace monitor: each genuine packet is processed at most once (frames received of a
     kind never exceed frames the peer transmitted), datagrams are routed to the connection that
     owns them, forged/corrupted/replayed input ends nothing.
-    Projection expected: tags 2, 4, 8 (last probe per connection matters), 11, 14. *)
+    Projection expected: tags 2, 4, 8 (last probe per connection matters), 11, 14, and 19 / 18 around
+    datagrams that consist of a Retry or Version Negotiation packet. *)
 From Coq Require Import ZArith List Bool.
 From QV Require Import Lib.Corr Sys.Trace.
 Import ListNotations.
@@ -12,7 +13,13 @@ Record st := { lastp : list (key * list Z); resp : list key (* (endpoint that se
                closed : list key (* close() called locally *);
                genuine : list key (* received an intact genuine datagram *); lossy : bool ; restarted : bool (* the server process restarted (WORLD 13/11) *);
                gone : list key (* connections whose endpoint has forgotten them (Drained) *);
-               rotating : bool (* CID_LIFETIME_MS > 0: issued CIDs are retired and stop routing *) }.
+               rotating : bool (* CID_LIFETIME_MS > 0: issued CIDs are retired and stop routing *);
+               shortcid : bool (* CID_LEN <= 2: a retired or released CID value is soon issued again *);
+               offpath : list Z (* pair indices whose server side was created by a datagram from an address the
+                                   attacker owns (a copy of the client's Initial that won the race): that
+                                   connection's path leads to the attacker, who relays what it likes *);
+               pendu : option (key * list Z) (* state of a connection right before it was handed a datagram that
+                                                consists of an unprotected (Retry / Version Negotiation) packet *) }.
 
 (** frames of kind [j] (stats index of tx; rx is j+1) *)
 Definition le_tx (rxp txp : list Z) (j : nat) : bool := sf rxp (j + 1) <=? sf txp j.
@@ -34,7 +41,7 @@ Definition final_ok (s : st) : bool :=
     end) (lastp s).
 
 Definition step (s : st) (r : list Z) : option st :=
-  if tag r =? 8 then Some {| lastp := aset (lastp s) (rkey r) r; resp := resp s; connected := connected s; born := born s; closed := closed s; genuine := genuine s; lossy := lossy s; restarted := restarted s; gone := gone s; rotating := rotating s |}
+  if tag r =? 8 then Some {| lastp := aset (lastp s) (rkey r) r; resp := resp s; connected := connected s; born := born s; closed := closed s; genuine := genuine s; lossy := lossy s; restarted := restarted s; gone := gone s; rotating := rotating s; shortcid := shortcid s; offpath := offpath s; pendu := pendu s |}
   else if tag r =? 2 then
     (* routing: a datagram produced by connection [origin] is handed to that connection only *)
     let out := fld r 5 in
@@ -49,28 +56,57 @@ Definition step (s : st) (r : list Z) : option st :=
                                         || ((fld r 9 =? 2) && rotating s)) in
     (* a corrupted datagram (pkind 3) may carry a damaged CID and reach another connection, which
        then fails to authenticate it: only intact copies are judged *)
+    (* with 1- or 2-byte CIDs a CID value that was retired (rotation) or released (its connection was
+       forgotten) is soon issued to another connection: an old copy of a datagram addressed to it
+       reaches the new owner, which fails to authenticate it *)
+    let reissued := shortcid s && ((fld r 9 =? 2) || (fld r 9 =? 5) || (fld r 9 =? 6))
+                    && (rotating s || existsb (key_eqb (rep r, origin)) (gone s)) in
     if ((out =? 1) || (out =? 2)) && (0 <=? origin) && negb (fld r 9 =? 3)
-       && negb ((fld r 6) mod 1000 =? origin mod 1000) && negb fresh_attempt then None
-    else if out =? 3 then Some {| lastp := lastp s; resp := (rep r, origin mod 1000) :: resp s; connected := connected s; born := born s; closed := closed s; genuine := genuine s; lossy := lossy s; restarted := restarted s; gone := gone s; rotating := rotating s |}
+       && negb ((fld r 6) mod 1000 =? origin mod 1000) && negb fresh_attempt && negb reissued then None
+    else if (out =? 2) && ((fld r 9 =? 6) || (fld r 9 =? 7)) && (2 <=? fld r 3) then
+      Some {| lastp := lastp s; resp := resp s; connected := connected s; born := born s; closed := closed s; genuine := genuine s;
+              lossy := lossy s; restarted := restarted s; gone := gone s; rotating := rotating s; shortcid := shortcid s;
+              offpath := (fld r 6) mod 1000 :: offpath s; pendu := pendu s |}
+    else if out =? 3 then Some {| lastp := lastp s; resp := (rep r, origin mod 1000) :: resp s; connected := connected s; born := born s; closed := closed s; genuine := genuine s; lossy := lossy s; restarted := restarted s; gone := gone s; rotating := rotating s; shortcid := shortcid s; offpath := offpath s; pendu := pendu s |}
     else if (out =? 1) && ((fld r 9 =? 0) || (fld r 9 =? 2)) then
       Some {| lastp := lastp s; resp := resp s; connected := connected s; born := born s; closed := closed s;
-              genuine := (rep r, fld r 6) :: genuine s; lossy := lossy s; restarted := restarted s; gone := gone s; rotating := rotating s |}
+              genuine := (rep r, fld r 6) :: genuine s; lossy := lossy s; restarted := restarted s; gone := gone s; rotating := rotating s; shortcid := shortcid s; offpath := offpath s; pendu := pendu s |}
     else Some s
   else if (tag r =? 3) && ((fld r 4 =? 20) || (fld r 4 =? 21)) then
     (* a new incarnation under this pair index has not connected yet *)
     Some {| lastp := lastp s; resp := resp s;
             connected := filter (fun k => negb (key_eqb k (rkey r))) (connected s);
-            born := rkey r :: born s; closed := closed s; genuine := genuine s; lossy := lossy s; restarted := restarted s; gone := gone s; rotating := rotating s |}
+            born := rkey r :: born s; closed := closed s; genuine := genuine s; lossy := lossy s; restarted := restarted s; gone := gone s; rotating := rotating s; shortcid := shortcid s; offpath := offpath s; pendu := pendu s |}
   else if (tag r =? 3) && (fld r 4 =? 11) then
     Some {| lastp := lastp s; resp := resp s; connected := connected s; born := born s;
-            closed := rkey r :: closed s; genuine := genuine s; lossy := lossy s; restarted := restarted s; gone := gone s; rotating := rotating s |}
+            closed := rkey r :: closed s; genuine := genuine s; lossy := lossy s; restarted := restarted s; gone := gone s; rotating := rotating s; shortcid := shortcid s; offpath := offpath s; pendu := pendu s |}
   else if (tag r =? 13) && (fld r 2 =? 11) then
     Some {| lastp := lastp s; resp := resp s; connected := connected s; born := born s; closed := closed s;
-            genuine := genuine s; lossy := lossy s; restarted := true; gone := gone s; rotating := rotating s |}
+            genuine := genuine s; lossy := lossy s; restarted := true; gone := gone s; rotating := rotating s; shortcid := shortcid s; offpath := offpath s; pendu := pendu s |}
   else if (tag r =? 5) && (fld r 4 =? 1) then
     Some {| lastp := lastp s; resp := resp s; connected := connected s; born := born s; closed := closed s;
-            genuine := genuine s; lossy := lossy s; restarted := restarted s; gone := rkey r :: gone s; rotating := rotating s |}
+            genuine := genuine s; lossy := lossy s; restarted := restarted s; gone := rkey r :: gone s; rotating := rotating s; shortcid := shortcid s; offpath := offpath s; pendu := pendu s |}
   else if tag r =? 11 then None
+  (* Retry and Version Negotiation packets are not protected by the connection's keys: whatever their
+     bytes, a connection other than a client that is still handshaking neither changes state nor
+     processes a frame (19 = the connection's probe before, 18 = right after such a datagram) *)
+  else if tag r =? 19 then
+    Some {| lastp := lastp s; resp := resp s; connected := connected s; born := born s; closed := closed s;
+            genuine := genuine s; lossy := lossy s; restarted := restarted s; gone := gone s; rotating := rotating s;
+            shortcid := shortcid s; offpath := offpath s; pendu := Some (rkey r, r) |}
+  else if tag r =? 18 then
+    match pendu s with
+    | Some (k, p) =>
+        if key_eqb k (rkey r) then
+          if ((rep r =? 0) && (pf p 0 =? 0))
+             || ((pf p 0 =? pf r 0) && (sf p 9 =? sf r 9) && (sf p 11 =? sf r 11) && (sf p 13 =? sf r 13) && (sf p 15 =? sf r 15))
+          then Some {| lastp := lastp s; resp := resp s; connected := connected s; born := born s; closed := closed s;
+                       genuine := genuine s; lossy := lossy s; restarted := restarted s; gone := gone s; rotating := rotating s;
+                       shortcid := shortcid s; offpath := offpath s; pendu := None |}
+          else None
+        else Some s
+    | None => Some s
+    end
   else if tag r =? 4 then
     if (fld r 4 =? 3) && (ridx r <? 255) then
       (* no transport error, no version mismatch caused by the attacker; a reset only if the peer
@@ -99,10 +135,12 @@ Definition step (s : st) (r : list Z) : option st :=
       (* the server process restarted: what it cannot answer with a stateless reset (long-header
          packets of an unfinished handshake) simply times out *)
       else if (fld r 5 =? 6) && restarted s then Some s
+      (* the server side of the pair talks to the attacker's address: without a faithful relay both ends time out *)
+      else if (fld r 5 =? 6) && existsb (Z.eqb ((ridx r) mod 1000)) (offpath s) then Some s
       (* a replayed Initial opens a fresh attempt that can only time out *)
       else if (fld r 5 =? 6) && negb (existsb (key_eqb (rkey r)) (connected s)) then Some s
       else None
-    else if fld r 4 =? 2 then Some {| lastp := lastp s; resp := resp s; connected := rkey r :: connected s; born := born s; closed := closed s; genuine := genuine s; lossy := lossy s; restarted := restarted s; gone := gone s; rotating := rotating s |}
+    else if fld r 4 =? 2 then Some {| lastp := lastp s; resp := resp s; connected := rkey r :: connected s; born := born s; closed := closed s; genuine := genuine s; lossy := lossy s; restarted := restarted s; gone := gone s; rotating := rotating s; shortcid := shortcid s; offpath := offpath s; pendu := pendu s |}
     else Some s
   else if tag r =? 10 then
     (* after a restart the counters of the forgotten server connections are frozen: no comparison *)
@@ -110,4 +148,4 @@ Definition step (s : st) (r : list Z) : option st :=
   else Some s.
 
 Definition monitor (i : ops) (o : outs) : option Z :=
-  snd (run_from step 0 {| lastp := []; resp := []; connected := []; born := []; closed := []; genuine := []; lossy := (100 <=? param i 6 0) || (100 <=? param i 2 0); restarted := false; gone := []; rotating := 0 <? param i 57 0 |} o).
+  snd (run_from step 0 {| lastp := []; resp := []; connected := []; born := []; closed := []; genuine := []; lossy := (100 <=? param i 6 0) || (100 <=? param i 2 0); restarted := false; gone := []; rotating := 0 <? param i 57 0; shortcid := param i 56 8 <=? 2; offpath := []; pendu := None |} o).
